@@ -60,6 +60,27 @@ def simulate(cdesc, ground, t_end, n_steps, inputs):
     U = {sid: np.asarray(f(t), dtype=float).reshape(-1) for sid, f in inputs.items()}
     x = np.zeros(N + Bn)
     X = np.zeros((n_steps + 1, N + Bn))
+    if any(U[p][0] != 0 for kd, p in kindrow if kd in ('V', 'I')):
+        # an input is already on at t = 0: the states are at rest (u_C = 0, i_L = 0) but the algebraic unknowns are not zero;
+        # consistent initial values from the same tableau with every capacitor row 'u = 0' and every inductor row 'i = 0'
+        M0 = M.copy()
+        rhs0 = np.zeros(N + Bn)
+        for j, (kd, p) in enumerate(kindrow):
+            row, col = N + j, N + j
+            a, b = comps[j]['nodes']
+            if kd in ('C', 'L'):
+                M0[row, :] = 0.0
+                if kd == 'C':
+                    if a in nidx:
+                        M0[row, nidx[a]] += 1.0
+                    if b in nidx:
+                        M0[row, nidx[b]] -= 1.0
+                else:
+                    M0[row, col] = 1.0
+            elif kd in ('V', 'I'):
+                rhs0[row] = U[p][0]
+        x = np.linalg.solve(M0, rhs0)
+        X[0] = x
 
     def u_of(xv, j):
         c = comps[j]
